@@ -648,6 +648,68 @@ def c33(idx: Index, rep: Report, tier: str) -> None:
     rep.count("decisions", nb)
     rep.require_min(rule_b, "decisions", 5)
 
+    # (c) the features valid in a version: introduced by then and not yet deprecated — the helper is interpreted on
+    # every version with the repository's own tables
+    rule_c = "C33.6 T15 valid-features-per-version"
+    from ..kinddsl import KindTables
+
+    tables = KindTables(idx)
+    pkm = idx.module("model.problem_kind")
+    gv = pkm.functions.get("get_valid_features")
+    if gv is None:
+        raise AnalysisError(f"{rule_c}: get_valid_features vanished")
+    interp = _OrderInterp(gv.node)
+    all_feats = sorted({f for fs in tables.features.values() for f in fs})
+    versions = dict(tables.versions)
+    nc = 0
+    try:
+        for v in range(1, tables.latest + 2):
+            env = {gv.node.args.args[0].arg: v, "all_features": list(all_feats), "FEATURES_VERSIONS": dict(versions)}
+            try:
+                interp._block(gv.node.body, env)
+                got = None
+            except _Returned as r:
+                got = set(r.value)
+            want = {f for f in all_feats if versions.get(f, (1, None))[0] <= v and (versions.get(f, (1, None))[1] is None or v < versions.get(f, (1, None))[1])}
+            nc += 1
+            ok = got == want
+            diff = sorted((got or set()) ^ want)[:4]
+            rep.check(ok, rule_c, f"get_valid_features({v}) is the set of features introduced by version {v} and not deprecated by then", gv.loc(), construct=f"version {v}: {len(want)} features" + ("" if ok else f"; differs on {diff}"), detail="" if ok else "a deprecated feature counts as valid again in a later version (or a feature is valid before it was introduced): kinds that are equal in one version stop being equal after an upgrade, so upgrading does not preserve <=", function=gv.qualname)
+    except _OrderInterp.Unsupported as u:
+        rep.inconclusive(rule_c, f"get_valid_features is not interpretable ({u})", gv.loc(), function=gv.qualname)
+    rep.count("versions_checked", nc)
+
+    # (d) a value memoised from the feature set is dropped by every method that changes the feature set
+    rule_d = "C33.7 derived-caches-invalidated-by-every-mutator"
+    def memo_fields(cls_node):
+        out = {}
+        for m in [x for x in ast.walk(cls_node) if isinstance(x, (ast.FunctionDef, ast.AsyncFunctionDef))]:
+            if m.name in ("__init__", "__setstate__"):
+                continue
+            reads = {x.attr for x in ast.walk(m) if isinstance(x, ast.Attribute) and norm(x.value) == "self" and isinstance(x.ctx, ast.Load)}
+            for a in ast.walk(m):
+                if isinstance(a, ast.Assign) and isinstance(a.targets[0], ast.Attribute) and norm(a.targets[0].value) == "self" and a.targets[0].attr in reads and not (isinstance(a.value, ast.Constant) and a.value.value is None) and any(isinstance(r, ast.Return) and isinstance(r.value, ast.Attribute) and r.value.attr == a.targets[0].attr for r in ast.walk(m)):
+                    out.setdefault(a.targets[0].attr, m.name)
+        return out
+
+    def mutators(cls_node, field="_features"):
+        return [m for m in ast.walk(cls_node) if isinstance(m, (ast.FunctionDef, ast.AsyncFunctionDef)) and m.name != "__init__" and any(isinstance(c, ast.Call) and isinstance(c.func, ast.Attribute) and c.func.attr in ("add", "discard", "remove", "update", "clear", "difference_update", "intersection_update") and norm(c.func.value) == f"self.{field}" for c in ast.walk(m))]
+
+    nd_ = 0
+    for cq in ("model.problem_kind.ProblemKind", "model.problem_kind.ProblemKindMeta"):
+        ci = idx.cls(cq)
+        memos = memo_fields(idx.cls("model.problem_kind.ProblemKind").node)
+        for m in mutators(ci.node):
+            nd_ += 1
+            for fld, where in memos.items():
+                resets = any(isinstance(a, ast.Assign) and isinstance(a.targets[0], ast.Attribute) and a.targets[0].attr == fld and isinstance(a.value, ast.Constant) and a.value.value is None for a in ast.walk(m))
+                rep.check(resets, rule_d, f"{m.name} drops the memoised `{fld}`", ci.loc(m), construct=f"{m.name}: mutates self._features" + ("" if resets else f" but keeps self.{fld} (memoised by {where})"), detail="" if resets else f"`{fld}` is computed from the feature set once and kept; this method changes the feature set without forgetting it, so a kind that was inspected before the change reports a stale value (== / <= / hash then disagree with a kind built in one go)", function=ci.qualname)
+    fx = ast.parse("class K:\n    def v(self):\n        if self._c is not None:\n            return self._c\n        self._c = len(self._features)\n        return self._c\n    def s(self, f):\n        self._features.add(f)\n").body[0]
+    if memo_fields(fx) != {"_c": "v"} or [m.name for m in mutators(fx)] != ["s"]:
+        raise AnalysisError(f"{rule_d}: positive fixture no longer matches")
+    rep.count("feature_mutators", nd_)
+    rep.require_min(rule_d, "feature_mutators", 2)
+
 
 # ------------------------------------------------------------------------------------ C32
 def c32(idx: Index, rep: Report, tier: str) -> None:
@@ -943,6 +1005,14 @@ class _Raised(Exception):
     pass
 
 
+class _LoopContinue(Exception):
+    pass
+
+
+class _LoopBreak(Exception):
+    pass
+
+
 class _Prop:
     """a computed attribute of a stub"""
 
@@ -998,12 +1068,27 @@ class _OrderInterp:
                 continue
             if isinstance(s, ast.Assign) and len(s.targets) == 1 and isinstance(s.targets[0], ast.Name):
                 env[s.targets[0].id] = self._expr(s.value, env)
+            elif isinstance(s, ast.Assign) and len(s.targets) == 1 and isinstance(s.targets[0], ast.Tuple) and all(isinstance(x, ast.Name) for x in s.targets[0].elts):
+                vals = list(self._expr(s.value, env))
+                if len(vals) != len(s.targets[0].elts):
+                    raise self.Unsupported("unpacking arity")
+                for x, v in zip(s.targets[0].elts, vals):
+                    env[x.id] = v
             elif isinstance(s, ast.If):
                 self._block(s.body if self._expr(s.test, env) else s.orelse, env)
             elif isinstance(s, ast.For) and isinstance(s.target, ast.Name):
                 for x in list(self._expr(s.iter, env)):
                     env[s.target.id] = x
-                    self._block(s.body, env)
+                    try:
+                        self._block(s.body, env)
+                    except _LoopContinue:
+                        continue
+                    except _LoopBreak:
+                        break
+            elif isinstance(s, ast.Continue):
+                raise _LoopContinue()
+            elif isinstance(s, ast.Break):
+                raise _LoopBreak()
             elif isinstance(s, ast.Expr) and isinstance(s.value, ast.Yield):
                 v = self._expr(s.value.value, env)
                 self.out.append(v[0] if isinstance(v, tuple) else v)
@@ -1105,11 +1190,19 @@ class _OrderInterp:
         if isinstance(e, ast.Call) and isinstance(e.func, ast.Name) and e.func.id in ("all", "any", "set", "len", "list", "tuple") and len(e.args) == 1:
             v = list(self._expr(e.args[0], env))
             return {"all": all(v), "any": any(v), "set": set(v), "len": len(v), "list": v, "tuple": tuple(v)}[e.func.id]
+        if isinstance(e, ast.Call) and isinstance(e.func, ast.Name) and e.func.id == "set" and not e.args:
+            return set()
         if isinstance(e, ast.Call) and isinstance(e.func, ast.Attribute) and not e.keywords:
             try:
                 base = self._expr(e.func.value, env)
             except self.Unsupported:
                 base = None
+            if isinstance(base, dict) and e.func.attr == "get":
+                a = [self._expr(x, env) for x in e.args]
+                return base.get(a[0], a[1] if len(a) > 1 else None)
+            if isinstance(base, set) and e.func.attr in ("add", "discard"):
+                getattr(base, e.func.attr)(self._expr(e.args[0], env))
+                return None
             if isinstance(base, _Stub):
                 if e.func.attr in base._table:
                     tv = base._table[e.func.attr]
